@@ -281,6 +281,20 @@ def oracle(case):
 
 
 
+def kf_userinfo_nfkc_delimiter(case, failure):
+    """KF-C01-5: in unquoted mode the user name / password is percent-decoded to a character whose compatibility (NFKC)
+    form holds one of '/ ? # @ :' (U+FF20 FULLWIDTH COMMERCIAL AT ...: the 19 code points of the regenerated table
+    Gen.nfkcDelimCodes), which CPython's urlsplit refuses in a netloc: the result no longer parses.  Recognised: the
+    failure is the re-parse with the NFKC message, no law of the label decoder fails, unquoted mode, and the parsed
+    userinfo of the input holds the escapes of such a character (cc.kf_userinfo_nfkc_delimiter_hit re-checks the cause
+    on the real code)."""
+    if case["quoted"] or "no longer parses" not in failure or "under NFKC normalization" not in failure:
+        return False
+    if failure.rstrip().endswith("]") and ("Laws" in failure or "PunyClean" in failure):
+        return False
+    return cc.kf_userinfo_nfkc_delimiter_hit(_url(case), case["dp"])
+
+
 def nontrivial(case):
     url = _url(case)
     if any(c in url for c in "%@") or not url.isascii() or "/." in url or case["parts"].get("port"):
